@@ -314,7 +314,12 @@ static void run_owning_int(const std::vector<long long>& seq, const char* family
       ++steps;
       auto it = first.find(k);
       if (it == first.end()) {
-         long long* p = tree.insert(k, IntCmp{});
+         // a look-up for a key that is absent, made through the very object the insertion will then use (a request variable
+         // that is re-used): where that search ended says nothing about where the next key goes
+         long long request = k * 2 + 1000000007LL + steps;
+         if (!first.count(request) && tree.find(request, IntCmp{}) != nullptr) C.viol(std::string("owning:find:") + family, "absent key found", J().s("family", family).raw("seq", seq_json(seq)).str());
+         request = k; C.count("insertions_right_after_a_missed_lookup_through_the_same_object");
+         long long* p = tree.insert(request, IntCmp{});
          if (count_case) ref.insert(k);
          if (p == nullptr || *p != k) { C.viol(std::string("owning:insert-value:") + family, "insert returned wrong element", J().s("family", family).raw("seq", seq_json(seq)).str()); break; }
          if (!addrs.insert(p).second) { C.viol(std::string("owning:alias:") + family, "new key returned an existing element's address", J().s("family", family).raw("seq", seq_json(seq)).str()); break; }
@@ -434,7 +439,7 @@ static void body(Ctx& C)
    C.assume("comparators supplied by the harness are total orders");
    C.assume("exhaustive only up to the stated bounds; longer sequences are sampled");
    for (int i = 0; i < 6; ++i) C.need(std::string("fixup_case_") + std::to_string(i));
-   C.need("wide_result_sequences"); C.need("intrusive_duplicates_offered"); C.need("rejected_nodes_offered_to_a_second_chain"); C.need("insertions_refused_by_the_element_constructor"); C.need("recycled_sole_members_inserted");
+   C.need("wide_result_sequences"); C.need("intrusive_duplicates_offered"); C.need("rejected_nodes_offered_to_a_second_chain"); C.need("insertions_refused_by_the_element_constructor"); C.need("recycled_sole_members_inserted"); C.need("insertions_right_after_a_missed_lookup_through_the_same_object");
 
    const int maxn = C.thorough ? 9 : 8;
    // -- all permutations of 1..n ------------------------------------------------------
